@@ -2,7 +2,7 @@ use std::{fmt, io};
 
 use bitflags::bitflags;
 use bytes::{Bytes, BytesMut};
-use http::{Method, Version};
+use http::{Method, StatusCode, Version};
 use tokio_util::codec::{Decoder, Encoder};
 
 use super::{
@@ -21,6 +21,7 @@ bitflags! {
         const HEAD               = 0b0000_0001;
         const KEEP_ALIVE_ENABLED = 0b0000_1000;
         const STREAM             = 0b0001_0000;
+        const NO_BODY_STATUS     = 0b0010_0000;
     }
 }
 
@@ -144,6 +145,15 @@ impl Decoder for ClientCodec {
                 };
             }
 
+            // 1xx, 204 and 304 responses never have a body, but may still carry the
+            // `Content-Length` of the representation (RFC 7230 §3.3.2)
+            self.inner.flags.set(
+                Flags::NO_BODY_STATUS,
+                req.status.is_informational()
+                    || req.status == StatusCode::NO_CONTENT
+                    || req.status == StatusCode::NOT_MODIFIED,
+            );
+
             if !self.inner.flags.contains(Flags::HEAD) {
                 match payload {
                     PayloadType::None => self.inner.payload = None,
@@ -185,6 +195,26 @@ impl Decoder for ClientPayloadCodec {
             }
             None => None,
         })
+    }
+
+    fn decode_eof(&mut self, src: &mut BytesMut) -> Result<Option<Self::Item>, Self::Error> {
+        match self.decode(src)? {
+            Some(item) => Ok(Some(item)),
+
+            // The connection is closed. That ends a payload that is delimited by the end of the
+            // connection; a payload framed by `Content-Length` or chunked encoding that has not
+            // reached its end is truncated and must not look like a complete one. Responses that
+            // can not have a body are exempt: their `Content-Length` does not announce one.
+            None => match self.inner.payload {
+                Some(ref payload)
+                    if !payload.is_eof_delimited()
+                        && !self.inner.flags.contains(Flags::NO_BODY_STATUS) =>
+                {
+                    Err(PayloadError::Incomplete(None))
+                }
+                _ => Ok(None),
+            },
+        }
     }
 }
 
